@@ -373,7 +373,9 @@ def r8(ctx):
             regs = [e for e in evs if e.name == 'PUSH_RECV' and e.idx < w.idx]
             ok = any(dl is not None and contains(dl, n.data['res']) and (not regs or n.idx < regs[0].idx) for n in nows)
             dur_ok = any('Duration' in b.locals[i]['ty'] and dl is not None and contains(dl, ('param', i)) for i in range(1, b.arg_count + 1))
-            if not ok or not dur_ok:
+            # (a `recv_deadline(deadline: Instant)` variant: the caller's instant IS the deadline)
+            given = any(b.locals[i]['ty'] == 'std::time::Instant' and dl == ('param', i) for i in range(1, b.arg_count + 1))
+            if not given and (not ok or not dur_ok):
                 ctx.violate(b.key, p, 'wait_timeout deadline is not Instant::now()+duration evaluated before registration', at=w.at)
         # an unbounded wait after the timed wait is allowed only once the cancel attempt (under the blocking lock)
         # has FAILED, i.e. a peer owns the waiter and will finish shortly; otherwise the deadline is ignored
